@@ -36,11 +36,21 @@ let do_tree w =
   | OOB s -> pr "oob site=%s\n" (site_name s)
   | NoFuel -> pr "nofuel\n"
 
+(* rset_make's and regcomp's rejections that are decided before the size of the program is looked at:
+   a pattern that is not self-contained (re_groupcount = -1), the flag re_bad, an unconsumed rest *)
+let early_reject pats wrapped rest =
+  List.exists (fun p -> match re_groupcount_opt p with None -> true | Some _ -> false) (somes pats)
+  || parse_bad wrapped || rest <> []
+
 let do_comp w =
-  match parse_pat (rset_pattern (pats_of w)) with
+  let pats = pats_of w in
+  let wrapped = rset_pattern pats in
+  if List.exists (fun p -> match re_groupcount_opt p with None -> true | Some _ -> false) (somes pats) then pr "rej\n" else
+  match parse_pat wrapped with
   | OOB s -> pr "oob site=%s\n" (site_name s)
   | NoFuel -> pr "nofuel\n"
   | Ok (None, _) -> pr "rej\n"
+  | Ok (Some _, rest) when early_reject pats wrapped rest -> pr "rej\n"
   | Ok (Some t, _) ->
     let res = int_of_z (count t) + 3 in
     let ninst = int_of_z nINST in
@@ -50,10 +60,12 @@ let do_comp w =
 let do_rset depth flg nsub patw casew =
   let pats = pats_of patw in
   let wrapped = rset_pattern pats in
+  if List.exists (fun p -> match re_groupcount_opt p with None -> true | Some _ -> false) (somes pats) then pr "rej\n" else
   match parse_pat wrapped with
   | OOB s -> pr "oob site=%s\n" (site_name s)
   | NoFuel -> pr "nofuel\n"
   | Ok (None, _) -> pr "rej\n"
+  | Ok (Some _, rest) when early_reject pats wrapped rest -> pr "rej\n"
   | Ok (Some t, _) ->
     let res = int_of_z (count t) + 3 in
     if res > maxres then pr "big res=%d\n" res
